@@ -1,4 +1,5 @@
 import SqlgrepModel.Lemmas.PrintChars
+import SqlgrepModel.Lemmas.PrintLines
 import SqlgrepModel.Lemmas.JsonGrammar
 import SqlgrepModel.Model.Text
 /-
@@ -561,5 +562,93 @@ theorem record_denotes_row (o : RealOracle) (ho : RealTextOk o) (cols : List Byt
   obtain ⟨cs, hc, hobj⟩ := renderObject_denotes hm
   refine ⟨cs, names, xs, ?_, hobj, hnames, allRel_and_left hxs⟩
   rw [renderRecord_json, hmap]; exact hc
+
+/-! ### from the JSON value back to the cell -/
+
+mutual
+/-- what a reader of the JSON value knows of the cell: numbers with exponent 0 are INT, strings are TEXT
+(their UTF-8 bytes), arrays lose their static element type (set to `int`, as in `jsonMeaning`) -/
+def cellOfJVal : JVal → Option Value
+  | .null => some .null
+  | .bool b => some (.bool b)
+  | .num d => if d.exp = 0 then some (.int d.mant) else none
+  | .str s => some (.text (encode s))
+  | .arr xs =>
+    match cellsOfJVals xs with
+    | some vs => some (.array .int vs)
+    | none => none
+  | .obj _ => none
+def cellsOfJVals : List JVal → Option (List Value)
+  | [] => some []
+  | x :: xs =>
+    match cellOfJVal x, cellsOfJVals xs with
+    | some v, some vs => some (v :: vs)
+    | _, _ => none
+end
+
+mutual
+/-- the JSON value of a REAL-free cell determines the cell (up to `jsonMeaning`) -/
+theorem cellOfJVal_cellDoc (o : RealOracle) : ∀ (v : Value) (x : JVal), CellDoc o v x → noReal v = true →
+    cellOfJVal x = some (jsonMeaning v)
+  | _, _, .null, _ => rfl
+  | _, _, .int i, _ => by simp [cellOfJVal, jsonMeaning]
+  | _, _, .real _ _, h => by simp [noReal] at h
+  | _, _, .realNonFinite _, h => by simp [noReal] at h
+  | _, _, .bool b, _ => rfl
+  | _, _, .text h, _ => by subst h; rfl
+  | _, _, .array h, hn => by
+    simp only [noReal] at hn
+    simp only [cellOfJVal, cellsOfJVals_cellDocs o _ _ h hn, jsonMeaning]
+  | _, _, .timestamp h, _ => by simp only [cellOfJVal, h, jsonMeaning]
+  | _, _, .interval h, _ => by simp only [cellOfJVal, h, jsonMeaning]
+theorem cellsOfJVals_cellDocs (o : RealOracle) : ∀ (vs : List Value) (xs : List JVal), AllRel (CellDoc o) vs xs →
+    noRealAll vs = true → cellsOfJVals xs = some (jsonMeanings vs)
+  | _, _, .nil, _ => rfl
+  | _, _, .cons h hs, hn => by
+    simp only [noRealAll, Bool.and_eq_true] at hn
+    simp only [cellsOfJVals, cellOfJVal_cellDoc o _ _ h hn.1, cellsOfJVals_cellDocs o _ _ hs hn.2, jsonMeanings]
+end
+
+theorem map_cellOfJVal (o : RealOracle) {row : List Value} {xs : List JVal} (h : AllRel (CellDoc o) row xs)
+    (hn : ∀ v ∈ row, noReal v = true) : xs.map cellOfJVal = row.map (fun v => some (jsonMeaning v)) := by
+  induction h with
+  | nil => rfl
+  | @cons v x vs xs h _ ih =>
+    simp only [List.map_cons]
+    rw [cellOfJVal_cellDoc o v x h (hn v (List.mem_cons_self ..)), ih (fun w hw => hn w (List.mem_cons_of_mem _ hw))]
+
+/-! ### every line of a JSON printer -/
+
+theorem mem_printRows_json (o : RealOracle) (cols : List Bytes) (l : Line) :
+    ∀ (first : Bool) (rows : List (List Value)), l ∈ printRows o .json cols first rows →
+      ∃ row ∈ rows, l = .record (renderRecord o .json cols row)
+  | _, [], h => by simp [printRows] at h
+  | first, row :: rest, h => by
+    simp only [printRows, printRow, headerLines, List.nil_append, List.cons_append, List.mem_cons] at h
+    cases h with
+    | inl h => exact ⟨row, List.mem_cons_self .., h⟩
+    | inr h =>
+      obtain ⟨r, hr, hl⟩ := mem_printRows_json o cols l false rest h
+      exact ⟨r, List.mem_cons_of_mem _ hr, hl⟩
+
+/-- a line printed in JSON format is the blank separator or the record of one of the rows -/
+theorem mem_printAll_json (o : RealOracle) (l : Line) :
+    ∀ (first : Bool) (seq : List (ResultRow × Bool)), l ∈ printAll o .json first seq →
+      l = .separator ∨ ∃ cr ∈ allRows seq, l = .record (renderRecord o .json cr.1 cr.2)
+  | _, [], h => by simp [printAll] at h
+  | first, (r, single) :: rest, h => by
+    simp only [printAll, printResult, List.mem_append] at h
+    rcases h with (h | h) | h
+    · obtain ⟨row, hr, hl⟩ := mem_printRows_json o r.columns l first r.rows h
+      exact Or.inr ⟨(r.columns, row), by simp only [allRows, List.mem_append, List.mem_map]; exact Or.inl ⟨row, hr, rfl⟩, hl⟩
+    · unfold separatorLines at h
+      split at h
+      · simp only [List.mem_singleton] at h; exact Or.inl h
+      · cases h
+    · cases mem_printAll_json o l _ rest h with
+      | inl h => exact Or.inl h
+      | inr h =>
+        obtain ⟨cr, hcr, hl⟩ := h
+        exact Or.inr ⟨cr, by simp only [allRows, List.mem_append]; exact Or.inr hcr, hl⟩
 
 end Sqlgrep.Print
